@@ -928,6 +928,23 @@ def chart_oracle(cfg, out):
     return fails
 
 
+def classify_exit(rc, err):
+    """'crash' only for what the code under test did: a sanitizer report (ASan exit 99 / UBSan exit 98 / a sanitizer banner on
+    stderr), a signal (negative return code) or an uncaught C++ exception (abort).  Everything else that keeps the harness
+    from delivering its lines - the dynamic loader failing (rc 127, `error while loading shared libraries`: libompl being
+    re-linked by another check), a missing binary, a truncated output with rc 0 - is the machinery's problem: 'infra'."""
+    e = err or ""
+    if "error while loading shared libraries" in e or rc == 127 or rc == 126:
+        return "infra"
+    if rc in (98, 99) or "Sanitizer" in e or "runtime error:" in e:
+        return "crash"
+    if isinstance(rc, int) and rc < 0:
+        return "crash"
+    if "terminate called" in e:
+        return "crash"
+    return "infra"
+
+
 def same_or_drift(exp, got):
     """'same' | 'drift' (all numbers within 1e-12 relative) | 'diff'"""
     if exp == got:
@@ -956,6 +973,9 @@ def run_chart_pass(ck, hbin, cfg, pts, tier, stats):
         stats["infra"] = "harness exceeded the long limit of %d s in the chart pass (%s/%s)" % (RETRY_TIMEOUT[tier], cfg["space"], cfg["con"])
         return script, [], [], []
     if rc != 0 or len(out) != len(script) - 1:
+        if classify_exit(rc, err) == "infra":
+            stats["infra"] = "harness could not run the chart pass (rc=%s, %d of %d lines): %s" % (rc, len(out), len(script) - 1, (err or "")[-300:])
+            return script, [], [], []
         return script, out, [(len(out), "crash", "chart-pass", "harness exited with %s in the chart pass: %s" % (rc, (err or "")[-600:]))], []
     cf = chart_oracle(cfg, out)
     stats["chart:oracle-failures"] = len(cf)
@@ -999,6 +1019,9 @@ def run_config(ck, hbin, cfg, tier, script=None):
             return dict(script=p1, out=[], fails=[], diffs=[], stats=stats, p1=None, chart=None,
                         infra="harness exceeded the long limit of %d s in the projection pre-pass (%s/%s)" % (RETRY_TIMEOUT[tier], cfg["space"], cfg["con"]))
         if rc1 != 0 or o1 is None or len(o1) != len(p1) - 1:
+            if classify_exit(rc1, err1) == "infra":
+                return dict(script=p1, out=[], fails=[], diffs=[], stats=stats, p1=None, chart=None,
+                            infra="harness could not run the pre-pass (rc=%s, %d of %d lines): %s" % (rc1, len(o1 or []), len(p1) - 1, (err1 or "")[-300:]))
             return dict(script=p1, out=o1 or [], fails=[(len(o1 or []), "crash", "pass1", "harness exited with %s: %s" % (rc1, (err1 or "")[-600:]))],
                         diffs=[], stats=stats, p1=(p1, o1 or []))
         pts = []
@@ -1048,6 +1071,9 @@ def run_config(ck, hbin, cfg, tier, script=None):
                                   % (RETRY_TIMEOUT[tier], cfg["space"], cfg["con"]))
         out = out or []
         if rc != 0 or len(out) != len(script) - 1:
+            if classify_exit(rc, err) == "infra":
+                return dict(script=script, out=[], fails=[], diffs=[], stats=stats, p1=p1pair, chart=None,
+                            infra="harness could not run the script (rc=%s, %d of %d lines): %s" % (rc, len(out), len(script) - 1, (err or "")[-300:]))
             return dict(script=script, out=out, fails=[(len(out), "crash", "rc=%s" % rc, "harness exited with %s after %d of %d ops: %s"
                                                         % (rc, len(out), len(script) - 1, (err or "")[-800:]))], diffs=[], stats=stats, p1=p1pair)
     for op, o in zip(script[1:], out):
